@@ -36,6 +36,7 @@ class SimLoop(asyncio.BaseEventLoop):
         self._pct_points: List[int] = []
         self._pct_low = 0
         self._steps = 0
+        self._settle_fut: Any = None
         if policy == 'pct':
             pts = sorted(world.ch.int_between(1, pct_horizon, 'pct.point') for _ in range(pct_depth))
             self._pct_points = pts
@@ -97,8 +98,12 @@ class SimLoop(asyncio.BaseEventLoop):
         while sched and sched[0]._cancelled:
             h = heapq.heappop(sched)
             h._scheduled = False
-        # compact cancelled ready handles
         ready = self._ready
+        settle = self._settle_fut
+        if settle is not None and not any(not h._cancelled for h in ready):
+            # quiescent at the current virtual instant: everything that was runnable has run
+            self._settle_fut = None
+            settle.set_result(None)
         if not ready and sched and not self._stopping:
             when = sched[0]._when
             if when > w.now:
@@ -136,6 +141,13 @@ class SimLoop(asyncio.BaseEventLoop):
                 self._prio[t] = 100 - self._pct_low
         handle._run()
         handle = None
+
+
+def settle(loop: 'SimLoop') -> None:
+    """Run everything that is runnable *now* (no clock jump): used before asking the collector what survived."""
+    fut = loop.create_future()
+    loop._settle_fut = fut
+    loop.run_until_complete(fut)
 
 
 def new_loop(world: World, policy: Optional[str] = None) -> SimLoop:
